@@ -153,15 +153,22 @@ def check_hexforms(case, ctx):
         b = bytes.fromhex(text)
     except ValueError:
         b = None
-    st_, s = call(bip39.mnemonic_from_entropy, text)
-    if st_ == "exc":
-        ctx.count("raised")
-        return
-    ctx.count("returned")
-    if b is None or len(b) not in SIZES:
-        raise Violation("C04/hexform/produced-sentence", "mnemonic_from_entropy(%r) returned %r although the text "
-                        "holds %s" % (text, str(s)[:80], "no whole bytes" if b is None else "%d bytes" % len(b)))
-    _judge_sentence("C04/hexform", "mnemonic_from_entropy(%r)" % text, s, b)
+    from btc_hd_wallet.paper_wallet import PaperWallet
+    entries = [("mnemonic_from_entropy", lambda: bip39.mnemonic_from_entropy(text)),
+               ("BaseWallet.from_entropy_hex", lambda: BaseWallet.from_entropy_hex(text).mnemonic),
+               ("PaperWallet.from_entropy_hex", lambda: PaperWallet.from_entropy_hex(entropy_hex=text, password="x").mnemonic)]
+    for name, f in entries:
+        st_, s = call(f)
+        if st_ == "exc":
+            ctx.count("raised" if name == "mnemonic_from_entropy" else "raised[%s]" % name)
+            continue
+        ctx.count("returned" if name == "mnemonic_from_entropy" else "returned[%s]" % name)
+        if b is None or len(b) not in SIZES:
+            raise Violation("C04/hexform/produced-sentence" + ("" if name == "mnemonic_from_entropy" else "[%s]" % name),
+                            "%s(%r) returned %r although the text holds %s" % (
+                                name, text, str(s)[:80], "no whole number of bytes (%d hex digits)" % len(case["digits"])
+                                if b is None else "%d bytes" % len(b)))
+        _judge_sentence("C04/hexform", "%s(%r)" % (name, text), s, b)
 
 
 def nt_hexforms(case):
@@ -279,6 +286,28 @@ def check_wordlist(case, ctx):
     ctx.count("__extra_evals__", 2048)
 
 
+# ------------------------------------------------------------------------------------ concurrent encodings
+def check_encode_threads(case, ctx):
+    """2..3 threads encode different entropy values (different sizes) at once under the deterministic scheduler."""
+    from vlib import threads as T
+    bip39, BaseWallet = _impl()
+    jobs = case["jobs"]
+
+    def runner(es):
+        def run():
+            return [call(bip39.mnemonic_from_entropy, e.hex()) for e in es]
+        return run
+    results, errors = T.run_scheduled(case["plan"], [runner(es) for es in jobs], T.library_files("bip39", "helper"), ctx)
+    for t, es in enumerate(jobs):
+        if t in errors:
+            raise Violation("C04/threads/crashed", "thread %d raised %r" % (t, errors[t]))
+        for e, (st_, s) in zip(es, results[t]):
+            if st_ == "exc":
+                raise Violation("C04/threads/raised", "with %d threads encoding at once, mnemonic_from_entropy(%s) raised %r"
+                                % (len(jobs), e.hex(), s))
+            _judge_sentence("C04/threads", "with %d threads encoding at once, mnemonic_from_entropy(%s)" % (len(jobs), e.hex()), s, e)
+
+
 def clauses():
     return [
         Clause("encode", check_encode,
@@ -302,6 +331,14 @@ def clauses():
                classes=lambda c: ["ws=%d" % min(len(c["ws"]), 3), "digits-ok" if len(c["digits"]) in (32, 40, 48, 56, 64)
                                   else "digits-other"],
                n={"quick": 6000, "thorough": 300000}),
+        Clause("encode-threads", check_encode_threads,
+               "2..3 threads encode 1..3 entropy values each (sizes mixed) at once under the deterministic "
+               "line-granularity scheduler (bip39.py, helper.py traced); every sentence judged as in `encode`; "
+               "non-trivial = >= 2 thread switches (measured)",
+               gen=lambda tier: st.fixed_dictionaries({
+                   "jobs": st.lists(st.lists(entropies(), min_size=1, max_size=3), min_size=2, max_size=3),
+                   "plan": __import__("vlib.threads", fromlist=["plans"]).plans()}),
+               n={"quick": 400, "thorough": 20000}, shards={"quick": 8, "thorough": 16}),
         Clause("generator", check_generator,
                "the sentence generators (mnemonic_from_entropy_bits, BaseWallet.from_entropy_bits, new_wallet) with the "
                "module's random source replaced from outside by a scripted one: the sentence must encode exactly the "
